@@ -227,3 +227,73 @@ R.contract("MessageHeader._flags", params={"self": "MessageHeader"}, returns="Li
            note="raises nothing")
 R.contract("MessageHeader.__str__", params={"self": "MessageHeader"}, returns="str", props=["C04"],
            note="rendering a header never raises")
+
+# ---- AVP search -----------------------------------------------------------------------------------------
+from pyvc.smt import arr as _arr, SEQI as _SEQI, seq_concat as _cat, seq_unit as _unit, seq_len as _len, \
+    seq_empty as _empty, Implies as _Imp, And as _And, Ite as _Ite
+from pyvc.values import VSeq, K_INT
+from pyvc.values import parse_kind as _pk
+
+
+def _filt_decl(ex):
+    ex.decls.fun("avp_filter", [_arr(INT, INT), _arr(INT, INT), _SEQI, INT, INT], _SEQI)
+
+
+def _filt_arrays(ex, st):
+    return ex.heap_array(st, "Avp.code", INT, INT), ex.heap_array(st, "Avp._vendor_id", INT, INT)
+
+
+@R.specfn("avp_filter")
+def _avp_filter(ex, st, seq, c, v):
+    """subsequence (in order) of the AVPs whose code and vendor id equal (c, v); defined by snoc recursion"""
+    _filt_decl(ex)
+    t, _ = ex.as_seq(st, ex.unwrap(seq))
+    w = app("avp_filter", _SEQI, *_filt_arrays(ex, st), t, ex.num(c), ex.num(v))
+    st.pc.append(_Imp(Eq(_len(t), I(0)), Eq(w, _empty())))
+    return VSeq(w, _pk("Avp"))
+
+
+@R.specfn("avp_filter_snoc")
+def _avp_filter_snoc(ex, st, done, x, c, v):
+    from pyvc.smt import select
+    _filt_decl(ex)
+    d, _ = ex.as_seq(st, ex.unwrap(done))
+    x = ex.unwrap(x)
+    ca, va = _filt_arrays(ex, st)
+    c, v = ex.num(c), ex.num(v)
+    match = _And(Eq(select(ca, x.t), c), Eq(select(va, x.t), v))
+    lhs = app("avp_filter", _SEQI, ca, va, _cat(d, _unit(x.t)), c, v)
+    base_ = app("avp_filter", _SEQI, ca, va, d, c, v)
+    return VBool(Eq(lhs, _Ite(match, _cat(base_, _unit(x.t)), base_)))
+
+
+@R.specfn("pair_fst")
+def _pair_fst(ex, st, p):
+    from pyvc.models import _ufun
+    return VInt(_ufun(ex, "pair_fst", [INT], INT, ex.unwrap(p).t))
+
+
+@R.specfn("pair_snd")
+def _pair_snd(ex, st, p):
+    from pyvc.models import _ufun
+    return VInt(_ufun(ex, "pair_snd", [INT], INT, ex.unwrap(p).t))
+
+
+R.contract("_traverse_avp_tree", params={"avps": "List[Avp]", "code_and_vendor_path": "List[Any:pair]"},
+           returns="List[Avp]",
+           requires=[("non-empty-path", "len(code_and_vendor_path) >= 1")],
+           ensures=[("fresh-list", "fresh(result)"),
+                    ("single-element-path", "implies(len(code_and_vendor_path) == 1, "
+                     "items(result) == avp_filter(old(items(avps)), pair_fst(code_and_vendor_path[0]), "
+                     "pair_snd(code_and_vendor_path[0])))")],
+           raises=[Raise("AvpDecodeError", "len(code_and_vendor_path) > 1", "only_if")],
+           modifies=["*Avp._avps"], props=["C02"],
+           note="exact for single-element paths (matching AVPs, in list order); for longer paths only freshness, "
+                "termination of the loop and the raises clause are proved (the recursive at_path equation is not)")
+R.loop("_traverse_avp_tree", 0,
+       invariants=[("filter", "implies(len(code_and_vendor_path) == 1, items(found) == avp_filter(done, code, vendor))"),
+                   ("found-fresh", "fresh(found)"),
+                   ("input-fixed", "seq == old(items(avps)) and items(code_and_vendor_path) == old(items(code_and_vendor_path))"),
+                   ("same-keys", "code == pair_fst(code_and_vendor_path[0]) and vendor == pair_snd(code_and_vendor_path[0])")],
+       hints=["avp_filter_snoc(done, cur, code, vendor)"],
+       modifies=["list:found", "*Avp._avps"])
